@@ -136,7 +136,7 @@ def run(tier, rep):
     label = {len(ts) - len(unclosed) + k: ("unclosed:" + l, d_) for k, (l, d_, _) in enumerate(unclosed)}          # index in ts -> family label, depth
     assert all(ts[i] == unclosed[i - len(ts) + len(unclosed)][2] for i in label)
     reqs = [{"id": i, "mode": "cst", "bytes": list(t.encode("utf-8"))} for i, t in enumerate(ts)]
-    answers = gv_parallel("parse", reqs, shards=NCPU)
+    answers = gv_robust("parse", reqs, shards=NCPU, mem_gb=2)   # the death of a harness process (allocation failure, stack overflow) is data: verdict "abort"
     recs = []
     crash = 0
     for i, (t, a) in enumerate(zip(ts, answers)):
